@@ -20,7 +20,7 @@ func init() {
 			"optional SubscribeOn(handler); 1..3 threads run histories over Publish(unique v) / Subscribe / Unsubscribe; oracle per (Publish, subscription): exactly one delivery when registered before the call and not unsubscribed " +
 			"before it returned, none when unsubscribed before it began, never two; subscription order without handler; handler thread identity; Map delivers fn(v) once; " +
 			"non-trivial = a (un)subscribe overlapped a Publish (re-entrant or concurrent); distinct = distinct context-switch signature" +
-			" Flavours: publisher tree (Map, Map of Map, run-time Map), values published into derived publishers, (un)subscriptions on derived publishers incl. drain-and-resubscribe, derived publishers with a SubscribeOn handler of their own (another / the origin's), handler closed right after the last publish, placeholder subscriptions.",
+			" Flavours: publisher tree (Map, Map of Map, run-time Map), values published into derived publishers, (un)subscriptions on derived publishers incl. drain-and-resubscribe, derived publishers with a SubscribeOn handler of their own (another / the origin's), handler closed right after the last publish, placeholder subscriptions, callbacks bound through the returned handle after another subscriber came and went.",
 		Real: []string{"fpgo.PublisherDef (Subscribe, Unsubscribe, Publish, Map, SubscribeOn)", "fpgo.HandlerDef"},
 		Stub: []string{"goroutine scheduler", "subscription callbacks"},
 	})
@@ -67,6 +67,7 @@ type c10Sub struct {
 	initial     bool
 	level       int
 	placeholder bool
+	lateBind    bool // registered without a callback; the callback is set through the returned handle before anything is published
 	node        *c10Node
 	pub         *fpgo.PublisherDef[int] // the publisher the subscription was made on
 }
@@ -106,7 +107,7 @@ func genC10(t *simrt.Tape, tier string) Scenario {
 	sc.Map = t.Bool(1, 3)
 	sc.NSubs = 3 + t.Choose(4)
 	for i := 0; i < sc.NSubs; i++ {
-		sc.Actions = append(sc.Actions, []string{"none", "unsubSelf", "unsubOther", "subNew", "publishNested", "placeholder"}[t.ChooseW([]int{4, 2, 2, 1, 1, 1})])
+		sc.Actions = append(sc.Actions, []string{"none", "unsubSelf", "unsubOther", "subNew", "publishNested", "placeholder", "lateBind"}[t.ChooseW([]int{4, 2, 2, 1, 1, 1, 1})])
 		sc.Targets = append(sc.Targets, t.Choose(sc.NSubs))
 	}
 	if sc.Map {
@@ -237,6 +238,15 @@ func (sc *c10Scenario) Run(s *simrt.Sim) {
 			cs.placeholder = true
 			return cs
 		}
+		if action == "lateBind" {
+			cs.subOp = h.Do(name, "Subscribe", cs.id, func() (interface{}, error) {
+				cs.ptr = pub.Subscribe(fpgo.Subscription[int]{})
+				return nil, nil
+			})
+			cs.lateBind = true
+			cs.action = "none"
+			return cs
+		}
 		cs.subOp = h.Do(name, "Subscribe", cs.id, func() (interface{}, error) {
 			cs.ptr = pub.Subscribe(fpgo.Subscription[int]{OnNext: func(v int) {
 				sc.deliv = append(sc.deliv, c10Deliv{sub: cs.id, val: v, at: s.Stamp(), thread: s.Self().ID})
@@ -276,6 +286,21 @@ func (sc *c10Scenario) Run(s *simrt.Sim) {
 	for i := 0; i < sc.NSubs; i++ {
 		cs := newSub("main", p, false, sc.Actions[i], sc.Targets[i])
 		cs.initial = true
+	}
+	for _, cs := range sc.subs {
+		if !cs.lateBind || cs.ptr == nil {
+			continue
+		}
+		// while the callback is still unset, somebody else comes and goes; then the callback is bound through the
+		// handle Subscribe returned (all of it before the first Publish): from here on it is a subscriber like any other
+		tmp := newSub("main", p, false, "none", 0)
+		unsubscribe("main", tmp)
+		cs := cs
+		cs.ptr.OnNext = func(v int) {
+			sc.deliv = append(sc.deliv, c10Deliv{sub: cs.id, val: v, at: s.Stamp(), thread: s.Self().ID})
+			s.Yield()
+		}
+		sc.probes["callback-bound-after-Subscribe"]++
 	}
 	var m *fpgo.PublisherDef[int]
 	var derivedHd *fpgo.HandlerDef
